@@ -15,7 +15,8 @@
 //                   D               delete the SignalHandler
 //           gap   : index of the program step before which the signal is raised (0 = before the first step,
 //                   n = after the last one); program steps are the individual stores, counted as they happen
-//           sig   : I (SIGINT) | T (SIGTERM)
+//           sig   : I (SIGINT) | T (SIGTERM), optionally "+<sig>@<w|c|r>": a second signal raised from inside the first
+//                   one's handler (inside write(2) / the callback / the re-arming signal() call)
 // argv[1]: number of program steps of one SetHandler call (default 2), only used to validate gap indices.
 // stdout: one line per case: a token per program step "<point>[state]", per work step "W(q=<0|1>)[state]",
 //         per delivered signal "!<sig>(brk=<n>,cb=<h>:<d>|-,rearm=<sigs>)[state]" or "!<sig>(brk=<n>,exit=<code>)" or
@@ -32,6 +33,7 @@
 #include <string>
 #include <vector>
 #include <unistd.h>
+#include <dlfcn.h>
 #include <fcntl.h>
 #include <sys/wait.h>
 #include <sys/mman.h>
@@ -96,7 +98,30 @@ static bool g_sysv = false;
 static int g_sigcalls[64];       // log of signal() calls: signal number, negative if the handler is not HandleSigInt
 static volatile int g_nsigcalls = 0;
 
+// ---------------------------------------------------------------- nested delivery (re-entrance)
+// A schedule entry "<gap>:<g>+<g'>@<place>" raises g' from inside the handler of g, at one of the places the harness
+// can reach without call-outs in HandleSigInt: w = inside write(2) (after the text went out), c = inside the
+// registered callback, r = inside the re-arming signal() call (before it takes effect).
+static volatile int g_nest_sig = 0;
+static volatile char g_nest_place = 0;
+static void nest_here(char place) {
+  if (g_nest_place == place && g_nest_sig) {
+    int sg = g_nest_sig;
+    g_nest_place = 0;
+    g_nest_sig = 0;
+    raise(sg);
+  }
+}
+static ssize_t (*g_real_write)(int, const void *, size_t) = 0;
+extern "C" ssize_t write(int fd, const void *buf, size_t n) {
+  if (!g_real_write) g_real_write = (ssize_t (*)(int, const void *, size_t))dlsym(RTLD_NEXT, "write");
+  ssize_t r = g_real_write(fd, buf, n);
+  if (fd == 1) nest_here('w');
+  return r;
+}
+
 extern "C" sighandler_t signal(int sig, sighandler_t h) noexcept {
+  if (h == Stash<FnTag>::value) nest_here('r');      // (before this call is logged and takes effect)
   if (g_nsigcalls < 64) g_sigcalls[g_nsigcalls++] = (h == Stash<FnTag>::value) ? sig : -sig;
   struct sigaction sa, old;
   memset(&sa, 0, sizeof sa);
@@ -118,6 +143,7 @@ static int data_id(void *p) {
 }
 template <int H> static bool cb(void *d) {
   if (g_ncb < 64) { g_cblog[g_ncb][0] = H; g_cblog[g_ncb][1] = data_id(d); ++g_ncb; }
+  nest_here('c');
   return true;
 }
 static mp::InterruptHandler g_cbs[8] = {0, cb<1>, cb<2>, cb<3>, cb<4>, cb<5>, cb<6>, cb<7>};
@@ -135,7 +161,7 @@ static mp::BasicSolver *g_solver = 0;
 static SignalHandler *g_sh = 0;   // the live handler object, if any
 static mp::Interrupter *g_self = 0;   // the solver's own (default, do-nothing) interrupter
 static int g_step = 0;            // number of program steps completed = index of the current gap
-struct Sched { int gap; int sig; };
+struct Sched { int gap; int sig; int nsig; char place; };
 static std::vector<Sched> g_sched;
 static size_t g_next = 0;
 
@@ -179,6 +205,7 @@ static std::string classify(const std::string &s) {
   size_t L = sizeof(kBreak) - 1;
   if (s.empty()) return "0";
   if (s.size() == L && s == kBreak) return std::to_string(L);
+  if (s.size() == 2 * L && s == std::string(kBreak) + kBreak) return std::to_string(2 * L);   // outer + nested handler
   return "?" + std::to_string(s.size());
 }
 
@@ -235,9 +262,18 @@ static void deliver_due() {
     off_t from = cap_mark();
     int ncb0 = g_ncb, nsc0 = g_nsigcalls;
     char head[64];
-    snprintf(head, sizeof head, " !%c@%ld(", sig == SIGINT ? 'I' : 'T', (long)from);
+    int nsig = g_sched[g_next - 1].nsig;
+    char place = g_sched[g_next - 1].place;
+    if (nsig)
+      snprintf(head, sizeof head, " !%c+%c%c@%ld(", sig == SIGINT ? 'I' : 'T', nsig == SIGINT ? 'I' : 'T', place, (long)from);
+    else
+      snprintf(head, sizeof head, " !%c@%ld(", sig == SIGINT ? 'I' : 'T', (long)from);
     emit(head);                 // the parent completes this token if the process dies inside raise()
+    g_nest_sig = nsig;
+    g_nest_place = nsig ? place : 0;
     raise(sig);
+    g_nest_sig = 0;             // the place was not reached (no callback registered, ...): nothing was raised
+    g_nest_place = 0;
     std::string t = "brk=" + captured_since(from) + ",cb=";
     if (g_ncb == ncb0) t += "-";
     for (int i = ncb0; i < g_ncb; ++i)
@@ -380,10 +416,11 @@ static void run_child(const std::string &mode, const std::vector<std::string> &p
   _exit(0);
 }
 
-static int g_steps_per_reg = 2;   // number of stores in SetHandler (argv[1]; 3 for the repaired layout)
+static int g_steps_per_reg = 2;   // number of stores in SetHandler (argv[1] = "<R>[,<D>]"; 3 for the repaired layout)
+static int g_steps_per_dtor = 5;  // number of program steps of the destructor (4 stores + free; 4 without `stop_ = 1`)
 
 int main(int argc, char **argv) {
-  if (argc > 1) g_steps_per_reg = atoi(argv[1]);
+  if (argc > 1) { int r = 2, d = 5; int n = sscanf(argv[1], "%d,%d", &r, &d); if (n >= 1) g_steps_per_reg = r; if (n >= 2) g_steps_per_dtor = d; }
   if (!mp_verif_point) { /* hook variable exists (link succeeded); null by default as required */ }
   else { fprintf(stderr, "mp_verif_point is not null by default\n"); return 3; }
 #ifdef C15_APP
@@ -426,8 +463,14 @@ int main(int argc, char **argv) {
       if (!insched) prog.push_back(toks[k]);
       else {
         int g; char c;
-        if (sscanf(toks[k].c_str(), "%d:%c", &g, &c) != 2 || (c != 'I' && c != 'T')) bad = true;
-        else sched.push_back({g, c == 'I' ? SIGINT : SIGTERM});
+        char c2 = 0, pl = 0;
+        int used = 0;
+        int nf = sscanf(toks[k].c_str(), "%d:%c+%c@%c%n", &g, &c, &c2, &pl, &used);
+        if (nf == 4 && (size_t)used == toks[k].size() && (c == 'I' || c == 'T') && (c2 == 'I' || c2 == 'T') && strchr("wcr", pl))
+          sched.push_back({g, c == 'I' ? SIGINT : SIGTERM, c2 == 'I' ? SIGINT : SIGTERM, pl});
+        else if (sscanf(toks[k].c_str(), "%d:%c%n", &g, &c, &used) == 2 && (size_t)used == toks[k].size() && (c == 'I' || c == 'T'))
+          sched.push_back({g, c == 'I' ? SIGINT : SIGTERM, 0, 0});
+        else bad = true;
       }
     }
     for (size_t k = 1; k < sched.size(); ++k) if (sched[k].gap < sched[k - 1].gap) bad = true;
@@ -440,15 +483,15 @@ int main(int argc, char **argv) {
       if (prog.size() != 1 || prog[0].compare(0, 3, "APP") != 0 || prog[0].size() > 4 ||
           (prog[0].size() == 4 && !strchr("AEXU", prog[0][3]))) bad = true;
       g_app_variant = (!bad && prog[0].size() == 4) ? prog[0][3] : ' ';
-      nsteps = g_app_variant == 'U' ? 7 + 5 : (g_app_variant == 'E' || g_app_variant == 'X') ? 7 + g_steps_per_reg + 1 + 5
-                                                                                            : 7 + g_steps_per_reg + 1 + 1 + 5;
+      nsteps = g_app_variant == 'U' ? 7 + g_steps_per_dtor : (g_app_variant == 'E' || g_app_variant == 'X') ? 7 + g_steps_per_reg + 1 + g_steps_per_dtor
+                                                                                            : 7 + g_steps_per_reg + 1 + 1 + g_steps_per_dtor;
       if (!bad)
         if (!sched.empty() && sched.back().gap > nsteps) bad = true;
       if (false)
 #endif
       for (const std::string &m : prog) {
         if (m == "C") { if (alive) bad = true; alive = true; nsteps += 7; }
-        else if (m == "D") { if (!alive) bad = true; alive = false; nsteps += 5; }
+        else if (m == "D") { if (!alive) bad = true; alive = false; nsteps += g_steps_per_dtor; }
         else if (m == "W") nsteps += 1;
         else if (m[0] == 'N') {
           int h = -1, d = -1, used = 0;
